@@ -343,6 +343,14 @@ func (w *World) stepBlock(s *Step) {
 				w.stats.Reach["added_leaf_repeats_deleted_hash"]++
 			}
 		}
+		if w.sc.NodeHashLeaf && ar.Pct(25) {
+			if ih := pre.Layout().InternalHashes(); len(ih) > 0 {
+				if c := ih[ar.Intn(len(ih))]; !used[c] && !pre.IsLive(c) {
+					h = c
+					w.stats.Reach["added_leaf_carries_node_hash"]++
+				}
+			}
+		}
 		used[h] = true
 		adds[i] = h
 		leaves[i] = u.Leaf{Hash: adds[i]}
